@@ -168,6 +168,22 @@ func c11Run(c c11Case, st *vstat.Stats) error {
 
 	p, w := fixture.NewProcessor(bb.rules, noReplayWindow(), fixture.ExecConfig{Cores: 2, Fetch: 2}, fixture.NoEngines{})
 	defer w.Stop()
+	// A node uses one Processor for every block it verifies, forks included. Before the child under
+	// test, the same Processor executes (in 2 of 3 cases) an unrelated empty block at the PARENT's
+	// height whose timestamp is 3 s below the parent's (a sibling of the parent on another branch):
+	// the verdict on the child must depend on its own parent only.
+	if b.PHeight >= 1 && b.PHeight < 1<<32 && b.PTime > 10_000 && (c.DTime+int64(b.PHeight))%3 != 0 {
+		d := c.Block
+		d.Rules = b.Rules
+		d.PHeight, d.PTime = b.PHeight-1, b.PTime-3000-b.Rules.MinEmptyBlockGap-b.Rules.MinBlockGap
+		d.Height, d.Time = b.PHeight, b.PTime-3000
+		d.Txs = nil
+		if dd, derr := d.materialise(); derr == nil {
+			_, _ = p.Execute(ctx, dd.db, dd.blk, false)
+			dd.db.Close()
+			st.Label("sibling-of-parent-executed-first")
+		}
+	}
 	out, xerr := p.Execute(ctx, bb.db, blk, false)
 	if want && xerr != nil {
 		return fmt.Errorf("valid child rejected: %v", xerr)
